@@ -524,7 +524,7 @@ UNSORTED_COMPS = [['methane', 'ethane'], ['methane', 'ethane', 'propane'], ['pro
                   ['oxygen', 'nitrogen', 'carbon_dioxide'], ['methane', 'carbon_dioxide']]
 
 
-def bpm_spec(rng, rich=True, kind=None, ntracers=None, track=None, current=None, unsorted=False):
+def bpm_spec(rng, rich=True, kind=None, ntracers=None, track=None, current=None, unsorted=False, jet_match=False):
     kind = kind or rng.choice(['soluble', 'inert', 'mixed'])
     comp = rng.choice(UNSORTED_COMPS if unsorted else COMPS[:5] + UNSORTED_COMPS[2:])
     ntr = rng.randint(0, 3) if ntracers is None else ntracers
@@ -534,6 +534,13 @@ def bpm_spec(rng, rich=True, kind=None, ntracers=None, track=None, current=None,
          'Sj': rng.choice([0., 10.]), 'dTj': rng.choice([0., 5.]),
          'cj': [round(rng.uniform(0.5, 3.), 3) for _ in range(ntr)], 'tracers': ['tracer%d' % i for i in range(ntr)],
          'track': (rng.random() < 0.3) if track is None else track, 'dt_max': 60., 'sd_max': rng.choice([60., 150., 300.])}
+    if jet_match:
+        # the first particle is released within 0.5 K of the (warm) jet water but more than 0.5 K off the ambient:
+        # the constructor keeps its heat transfer on, the first Lagrangian element finds it in equilibrium
+        s['dTj'] = 5.
+        s['Vj'] = rng.uniform(0.5, 2.)
+        s['particles'][0]['dT'] = 5. + rng.uniform(-0.35, 0.35)
+        s['particles'][0]['K_T'] = round(rng.uniform(0.5, 1.), 3)
     s['profile'] = profile_spec(rng, H=400., current=current)
     return s
 
